@@ -84,3 +84,56 @@ OPQN_NONE = 9500
 
 def container_default_value(r, idx):
     return 9100 + idx
+
+
+# ------------------------------------------------------------------------------------------------ enum receivers (C09)
+def V(name, kind="unit", **o):
+    """kind: unit | newtype (ty) | struct (fields)"""
+    d = dict(name=name, kind=kind, rename=None, skip=False, word=False, ty=None, fields=None)
+    d.update(o)
+    return d
+
+
+def EN(name, variants, **o):
+    d = dict(name=name, variants=variants, rename_all=None, allow_unknown=False, from_word=None, from_none=None)
+    d.update(o)
+    return d
+
+
+ENUMS = [
+    EN("E1", [V("Unit"), V("VeryTasty"), V("Renamed", rename="x"), V("Hidden", skip=True), V("New", "newtype", ty="Opq"),
+              V("NewN", "newtype", ty="OpqN"), V("Strct", "struct", fields=[F("a"), F("b", default="Default")])]),
+    EN("E2", [V("FirstOne"), V("Second", rename="two"), V("HiddenNew", "newtype", ty="Opq", skip=True), V("Cfg", "struct", fields=[F("x")])],
+       rename_all="PascalCase"),
+    EN("E3", [V("Alpha"), V("BetaGamma"), V("Dflt", word=True)], rename_all="SCREAMING_SNAKE_CASE"),
+    EN("E4", [V("On"), V("Off"), V("Level", "newtype", ty="Opq")], from_word="on", from_none="off", rename_all="lowercase"),
+    EN("E5", [V("Loose", "struct", fields=[F("p")]), V("KebabName")], allow_unknown=True, rename_all="camelCase"),
+]
+ENUM_BY_NAME = {e["name"]: e for e in ENUMS}
+
+
+def apply_variant_rule(rule, variant):
+    if rule in ("PascalCase",):
+        return variant
+    if rule == "lowercase":
+        return variant.lower()
+    if rule == "camelCase":
+        return variant[:1].lower() + variant[1:]
+    snake = ""
+    for i, ch in enumerate(variant):
+        if i > 0 and ch.isupper():
+            snake += "_"
+        snake += ch.lower()
+    if rule in (None, "snake_case"):
+        return snake
+    if rule == "SCREAMING_SNAKE_CASE":
+        return snake.upper()
+    if rule == "kebab-case":
+        return snake.replace("_", "-")
+    raise ValueError(rule)
+
+
+def variant_name(en, v):
+    if v["rename"]:
+        return v["rename"]
+    return apply_variant_rule(en["rename_all"], v["name"])
